@@ -101,6 +101,21 @@ def _float_replay(h, cfg, witness):
     return dict(status="ok", tags=sorted(e.tags), observed=e.observed, checked=e.checked)
 
 
+def _norm_name(n):
+    return re.sub(r"\[\d+(,\d+)*\]", "[*]", n)
+
+
+def _same_failure(candidate, failed):
+    """does the float replay fail the obligation family (or raise the exception type) of the candidate?"""
+    names = {_norm_name(f["name"]) for f in failed}
+    c = _norm_name(candidate)
+    if c.startswith("exception:"):
+        return c.split("@")[0] in names
+    if c.startswith("def:"):
+        return True          # a definedness failure shows as whatever obligation the non-finite value breaks
+    return c in names
+
+
 def _exact_run(h, cfg, L, witness):
     from . import env as envm, core
     holder = {}
@@ -211,6 +226,11 @@ def _run_task(hmod, hname, cfg, tier, seed, t0):
             tried += 1
             r = _float_replay(h, cfg, m)
             last = r
+            if r["status"] == "violated" and not _same_failure(name, r["failed"]):
+                # the float run fails, but not the obligation the solver refuted (typically a floating-point
+                # knife edge of a boundary witness): not a confirmation of this candidate
+                r = dict(r, status="other-failure")
+                last = r
             if r["status"] == "violated":
                 confirmed.append(dict(candidate=name, witness=_jsonable(m), failed=r["failed"], tags=r["tags"],
                                       observed=_jsonable(r.get("observed", {}))))
